@@ -32,7 +32,7 @@ func init() {
 		Level: "exploration",
 		Modes: []Mode{{Name: "live", Weight: 5}, {Name: "coincide", Weight: 3}, {Name: "offline", Weight: 3}, {Name: "cut", Weight: 2}, {Name: "rawdup", Weight: 1}},
 		Gen:   genC03, Run: runC03,
-		QuickRuns: 5000, ThoroughRuns: 50000,
+		QuickRuns: 5000, ThoroughRuns: 300000,
 		Rule: "plan = (transport, direction per emission, time-out T in {none, 50 ms, 200 ms, 1 s}, peer reply delay in {0, T-eps, T, T+eps, never}, 0..3 attachments in event and reply, peer acking twice, connect instant for offline emits, cut instant, network and stall parameters) from VERIF_SEED; " +
 			"non-trivial = at least one reply and one time-out were decided within 2 ms of each other's deadline, or a buffered emission timed out / was flushed, or acks were outstanding at the cut; distinct = distinct history digest",
 		Assumptions: []string{
